@@ -282,6 +282,17 @@ impl Process {
     /// the FD. If the FD is equal to or greater than the current soft limit for
     /// `Resource::NOFILE`, returns `Err(body)`.
     pub fn set_fd(&mut self, fd: Fd, body: FdBody) -> Result<Option<FdBody>, FdBody> {
+        if self.is_fd_below_limit(fd) {
+            Ok(self.fds.insert(fd, body))
+        } else {
+            Err(body)
+        }
+    }
+
+    /// Tests whether the FD is less than the current soft limit for
+    /// `Resource::NOFILE`.
+    #[must_use]
+    pub fn is_fd_below_limit(&self, fd: Fd) -> bool {
         let limit = self
             .resource_limits
             .get(&Resource::NOFILE)
@@ -292,10 +303,8 @@ impl Process {
             clippy::unnecessary_cast,
             reason = "the types of FD and limit may vary across platforms"
         )]
-        if limit == INFINITY || (fd.0 as u64) < limit as u64 {
-            Ok(self.fds.insert(fd, body))
-        } else {
-            Err(body)
+        {
+            limit == INFINITY || (fd.0 as u64) < limit as u64
         }
     }
 
